@@ -31,7 +31,7 @@ type WireCase struct {
 	byStatus bool
 }
 
-var pathStrings = []string{"abc", "a b", "x&y=z", "50%", "q?r#s", "é☃", "+plus+", "a;b,c", "~tilde", "0", "-", "..x", "colon:semi", "@at", "$d", "(p)", "*star", "'q'", "%2F", "a%20b"}
+var pathStrings = []string{"abc", "a b", "x&y=z", "50%", "q?r#s", "é☃", "+plus+", "a;b,c", "~tilde", "0", "-", "..x", "colon:semi", "@at", "$d", "(p)", "*star", "'q'", "%2F", "a%20b", ".", "..", "...", ".hidden"}
 var headerStrings = []string{"abc", "a b", "with;semi=colon", "comma,separated", "\"quoted\"", "tab-free value", "x", "0", "UPPER lower", "key=value; other=1", "~!@#$%^&*()_+"}
 var queryStrings = []string{"", "abc", "a b", "a&b=c", "50%", "q?r#s", "é☃\U0001F600", "+plus+", "a;b", "new\nline", "\"quoted\"", "a/b/c", "%2F", "a,b", "Doe, John", ","}
 
@@ -159,6 +159,11 @@ func (w *wireCtx) do(req *http.Request) (*http.Response, error) {
 	sreq := req.Clone(req.Context())
 	sreq.Body = io.NopCloser(bytes.NewReader(body))
 	sreq.RequestURI = req.URL.RequestURI()
+	if req.ContentLength == 0 && len(body) > 0 {
+		// the client did not know the length: it goes out chunked and a server sees -1
+		sreq.ContentLength = -1
+		sreq.TransferEncoding = []string{"chunked"}
+	}
 	cw := &countingWriter{hdr: http.Header{}, fail: w.failWrite}
 	var pan any
 	func() {
@@ -231,6 +236,9 @@ func runWireCase(reg Registry, rec *Recorder, ops []OpInfo, client reflect.Value
 	if f := params.FieldByName("Body"); f.IsValid() && f.Kind() == reflect.Interface {
 		bs := []byte(queryStrings[r.Intn(len(queryStrings))] + "\x00\xffraw")
 		rd := io.Reader(bytes.NewReader(bs))
+		if r.Intn(2) == 0 {
+			rd = &opaqueReader{r: bytes.NewReader(bs)} // a reader of unknown length (a pipe, a file, a MultiReader ...)
+		}
 		if reflect.TypeOf(&rd).Elem().AssignableTo(f.Type()) || reflect.TypeOf(rd).AssignableTo(f.Type()) {
 			f.Set(reflect.ValueOf(rd))
 		} else {
